@@ -182,4 +182,62 @@ theorem mixVar_nonneg (l : List (α × α × α)) (hw : ∀ x ∈ l, 0 ≤ x.1) 
 
 end MixOrd
 
+section ParamsStage
+variable {α : Type} [Field α] [DecidableEq α]
+
+/-- Every cached value is what the uncached computation gives for its key. -/
+def CacheOK (approx : α → α → α × α) (table : Nat → Nat → α × α) (c : Cache α) : Prop :=
+  ∀ key v, c.lookup key = some v → v = paramsOf approx table [key]
+
+theorem paramsStep_spec (approx : α → α → α × α) (table : Nat → Nat → α × α)
+    (st : Cache α × List (α × α)) (r : NodeRecs α) (hc : CacheOK approx table st.1) :
+    CacheOK approx table (paramsStep approx table st r).1 ∧
+      (paramsStep approx table st r).2 = st.2 ++ [paramsOf approx table r] := by
+  rcases r with _ | ⟨⟨T, comps⟩, _ | ⟨g', rest⟩⟩
+  · exact ⟨hc, rfl⟩
+  · simp only [paramsStep]
+    by_cases h1 : comps.length = 1
+    · simp only [h1, if_true]; exact ⟨hc, trivial⟩
+    · simp only [h1, if_false]
+      by_cases h5 : comps.length ≤ 5
+      · simp only [h5, if_true]
+        cases hl : st.1.lookup (T, comps) with
+        | some v =>
+          simp only
+          exact ⟨hc, by rw [hc _ _ hl]⟩
+        | none =>
+          simp only
+          refine ⟨?_, trivial⟩
+          intro key v hk
+          rw [List.lookup_cons] at hk
+          by_cases hkey : (key == (T, comps)) = true
+          · simp only [hkey] at hk
+            have : key = (T, comps) := by simpa using hkey
+            rw [this]; exact (Option.some.inj hk).symm
+          · simp only [hkey] at hk
+            exact hc key v hk
+      · simp only [h5, if_false]; exact ⟨hc, trivial⟩
+  · exact ⟨hc, rfl⟩
+
+theorem foldl_paramsStep (approx : α → α → α × α) (table : Nat → Nat → α × α) (nodes : List (NodeRecs α)) :
+    ∀ st : Cache α × List (α × α), CacheOK approx table st.1 →
+      (nodes.foldl (paramsStep approx table) st).2 = st.2 ++ nodes.map (paramsOf approx table) := by
+  induction nodes with
+  | nil => intro st _; simp
+  | cons r rs ih =>
+    intro st hc
+    obtain ⟨h1, h2⟩ := paramsStep_spec approx table st r hc
+    rw [List.foldl_cons, ih _ h1, h2]
+    simp
+
+/-- **The cache of `get_mixture_prior_params` is transparent**: each node's parameters are
+`paramsOf` of its own records, whatever nodes were processed before it. -/
+theorem mixtureParams_eq (approx : α → α → α × α) (table : Nat → Nat → α × α) (nodes : List (NodeRecs α)) :
+    mixtureParams approx table nodes = nodes.map (paramsOf approx table) := by
+  unfold mixtureParams
+  rw [foldl_paramsStep approx table nodes ([], []) (by intro key v h; simp at h)]
+  simp
+
+end ParamsStage
+
 end Tsdate.Spans
